@@ -108,7 +108,7 @@ Record shf_wf (k : kcp) : Prop := mkWf {
 }.
 
 Lemma shf_wf_new : forall cv, is_u32 cv -> shf_wf (kcp_new cv).
-Proof. intros cv H. constructor; cbn; [exact H|constructor|constructor|constructor]. Qed.
+Proof. intros cv H. unfold kcp_new; constructor; ksimpl; [exact H|constructor|constructor|constructor]. Qed.
 
 (* ------------------------------------------------------------------ *)
 (* the strengthened relation                                           *)
